@@ -1,9 +1,12 @@
 import Model.Miner
 import Driver.Util
-/-! Line protocol of the Miner-rule model (C11).  Doubles travel as 16 hex digits.
+import Driver.Woehler
+/-! Line protocol of the Miner-rule model (C11).  Doubles travel as 16 hex digits.  The curve is the 7 tokens
+`k_1 k_2 SD ND TN TS failure_probability` of the C08 protocol (`-` for a missing `TN`, `TS`, `failure_probability`;
+`scipy.stats.norm.ppf` is the driver's `NormalQ.ppf`).
 
-* `mn_damage k1 k2 SD ND S_1 n_1 … S_m n_m` → per-class damage values, then the damage sum (m+1 doubles)
-* `mn_miner  k1 k2 SD ND S_1 n_1 … S_m n_m` → `degenerate` when no occupied class carries load, else
+* `mn_damage <curve> S_1 n_1 … S_m n_m` → per-class damage values, then the damage sum (m+1 doubles)
+* `mn_miner  <curve> S_1 n_1 … S_m n_m` → `degenerate` when no occupied class carries load, else
   `V A_ele A_hai NG_ele NG_hai Dm_ele Dm_hai flf(total) ND_gassner D_ele(applied NG_ele) D_hai(applied NG_hai)
    N_gassnercurve(maxOcc) D_orig D_hai D_ele`
 * `mn_eds A` → effective damage sum;  `mn_flf k1 ND N` → finite life factor
@@ -18,43 +21,36 @@ def pairs : List Float → Option (Coll Float)
   | S :: n :: rest => (pairs rest).map ((S, n) :: ·)
   | _ => none
 
-def mkCurve (k1 k2 SD ND : Float) : Curve Float :=
-  { k1 := k1, k2 := if k2.isFinite then some k2 else none, SD := SD, ND := ND }
-
 def optF : Option Float → Float
   | some x => x
   | none => 1.0 / 0.0
+
+def ppf : Float → Float := WC.NormalQ.ppf
 
 end MN
 open MN
 
 def handleMiner : List String → Option String
   | "mn_damage" :: rest => do
-    let v ← parseFloats rest
-    match v with
-    | k1 :: k2 :: SD :: ND :: cl =>
-      let l ← pairs cl
-      let c := mkCurve k1 k2 SD ND
-      some (joinFloats (damage c l ++ [damageSum c l]))
-    | _ => none
+    let w ← WC.curveOf (rest.take 7)
+    let l ← pairs (← parseFloats (rest.drop 7))
+    some (joinFloats (damageW ppf w l ++ [damageSumW ppf w l]))
   | "mn_miner" :: rest => do
-    let v ← parseFloats rest
-    match v with
-    | k1 :: k2 :: SD :: ND :: cl =>
-      let l ← pairs cl
-      let c := mkCurve k1 k2 SD ND
-      if (occupied l).isEmpty || !(0.0 < maxOcc l) then some "degenerate" else
-      let Ae := lifetimeMultipleElementary c l
-      let Ah := lifetimeMultipleHaibach c l
-      let NGe := gassnerCyclesElementary c l
-      let NGh := gassnerCyclesHaibach c l
-      let g := gassnerCurve c l
-      some (joinFloats [solidityHaibach l c.k1, Ae, Ah, NGe, NGh, effectiveDamageSum Ae, effectiveDamageSum Ah,
-        finiteLifeFactor c (total l), g.ND,
-        damageSum (minerElementary c) (applyFor NGe l), damageSum (minerHaibach c) (applyFor NGh l),
-        optF (cycles g (maxOcc l)),
-        damageSum (minerOriginal c) l, damageSum (minerHaibach c) l, damageSum (minerElementary c) l])
-    | _ => none
+    let w ← WC.curveOf (rest.take 7)
+    let l ← pairs (← parseFloats (rest.drop 7))
+    if (occupied l).isEmpty || !(0.0 < maxOcc l) then some "degenerate" else
+    let Ae := lifetimeMultipleElementaryW w l
+    let Ah := lifetimeMultipleHaibachW ppf w l
+    let NGe := gassnerCyclesElementaryW ppf w l
+    let NGh := gassnerCyclesHaibachW ppf w l
+    let g := gassnerCurveW w l
+    some (joinFloats [solidityHaibach l w.k1, Ae, Ah, NGe, NGh, effectiveDamageSum Ae, effectiveDamageSum Ah,
+      finiteLifeFactor (ofWoehler w) (total l), g.ND,
+      damageSumW ppf (Woehler.minerElementary w) (applyFor NGe l),
+      damageSumW ppf (Woehler.minerHaibach w) (applyFor NGh l),
+      optF (cycles (at50 ppf g) (maxOcc l)),
+      damageSumW ppf (Woehler.minerOriginal w) l, damageSumW ppf (Woehler.minerHaibach w) l,
+      damageSumW ppf (Woehler.minerElementary w) l])
   | ["mn_eds", a] => do
     let a ← parseFloat? a
     some (floatHex (effectiveDamageSum a))
@@ -62,7 +58,7 @@ def handleMiner : List String → Option String
     let k1 ← parseFloat? k1
     let nd ← parseFloat? nd
     let n ← parseFloat? n
-    some (floatHex (finiteLifeFactor (mkCurve k1 k1 1.0 nd) n))
+    some (floatHex (finiteLifeFactor ({ k1 := k1, k2 := none, SD := 1.0, ND := nd } : Miner.Curve Float) n))
   | _ => none
 
 end PylifeVerif.Driver
